@@ -18,11 +18,17 @@ def run(tier):
         if missing or extra:
             raise ToolError("entry-point list of Rng_%s.cfg and the harness differ: missing in spec %s, missing in harness %s" % (cfg, missing, extra))
         tr = os.path.join(wd, "trace_%s.ndjson" % cfg)
-        conform(cfg, ["rng-trace", tr, n0 if cfg == "stable" else max(100, n0 // 3), n1, n2], timeout=3000)
+        env = None
+        if cfg == "nightly":
+            # the generators of locked containers are also exercised while every lock request is refused (interposer)
+            import protcommon
+            protcommon.build_shim()
+            env = {"LD_PRELOAD": protcommon.SHIM}
+        conform(cfg, ["rng-trace", tr, n0 if cfg == "stable" else max(100, n0 // 3), n1, n2], timeout=3000, env=env)
         evs = [json.loads(l) for l in open(tr)]
         total_ev += len(evs)
         for e in evs:
-            if e["ev"] == "panic":
+            if e["ev"] == "panic" and not e["e"].endswith("[locks refused]"):
                 ck.fail("%s: panicked" % e["e"], {"panic": e.get("panic")})
         t = run_tlc("Rng", "Rng_%s" % cfg, workers=1, env={"TRACE": tr}, deque=True, xss="1g", coverage=False, timeout=3000, name="Rng" + cfg)
         ck.add_tlc(t, "Rng.tla trace validation (%s)" % cfg)
